@@ -313,6 +313,78 @@ def translate_obj_method(path, cname, fname, coq_name, fields, tests, reads, met
     return f"Definition {coq_name} {args} : res (pv * pv) :=\n  {text}.\n"
 
 
+class TrF(Tr):
+    """a whole module-level function with validation: on top of Tr  a or b, <, >,  if test: raise E(...),  x.to_bytes(n, "big"),
+    <Class>.<integer class constant>, calls of a wrapper class (bytes subclass: the identity on the model's values), and
+    try: <body> except E as e: raise E(...) from e  (re-raising the class that was caught: the identity on exception kinds)."""
+
+    def __init__(self, consts, wrappers):
+        super().__init__()
+        self.consts, self.wrappers = consts, wrappers
+
+    def expr(self, e, k):
+        if isinstance(e, ast.BoolOp) and isinstance(e.op, ast.Or) and len(e.values) == 2:
+            v = self.fresh()
+            return self.expr(e.values[0], lambda a: f"{v} <- (if truthy {a} then Ok {a} else {self.expr(e.values[1], lambda b: f'Ok {b}')}) ;; {k(v)}")
+        if isinstance(e, ast.Compare) and len(e.ops) == 1 and type(e.ops[0]) in CMPS:
+            v = self.fresh()
+            return self.expr(e.left, lambda a: self.expr(e.comparators[0], lambda b: f"{v} <- {CMPS[type(e.ops[0])]} {a} {b} ;; {k(v)}"))
+        if isinstance(e, ast.Attribute) and isinstance(e.value, ast.Name) and (e.value.id, e.attr) in self.consts:
+            v = self.fresh()
+            return f"let {v} := VInt ({self.consts[(e.value.id, e.attr)]}) in {k(v)}"
+        if (isinstance(e, ast.Call) and isinstance(e.func, ast.Attribute) and e.func.attr == "to_bytes" and isinstance(e.func.value, ast.Name)
+                and len(e.args) == 2 and not e.keywords and isinstance(e.args[1], ast.Constant) and e.args[1].value == "big"):
+            v = self.fresh()
+            return self.expr(e.func.value, lambda x: self.expr(e.args[0], lambda n: f"{v} <- py_to_bytes_big {x} {n} ;; {k(v)}"))
+        if isinstance(e, ast.Call) and isinstance(e.func, ast.Name) and e.func.id in self.wrappers and len(e.args) == 1 and not e.keywords:
+            return self.expr(e.args[0], k)
+        if isinstance(e, ast.Attribute):
+            raise FunError(f"attribute outside the translated fragment: {ast.dump(e)[:80]}")
+        return super().expr(e, k)
+
+    def body(self, stmts):
+        if not stmts:
+            raise FunError("function body ends without a return")
+        s, rest = stmts[0], stmts[1:]
+        if (isinstance(s, ast.If) and not s.orelse and len(s.body) == 1 and isinstance(s.body[0], ast.Raise) and s.body[0].cause is None
+                and isinstance(s.body[0].exc, ast.Call) and isinstance(s.body[0].exc.func, ast.Name) and s.body[0].exc.func.id in RAISES
+                and all(isinstance(a, ast.Constant) for a in s.body[0].exc.args)):
+            return self.expr(s.test, lambda t: f"if truthy {t} then Err {RAISES[s.body[0].exc.func.id]}\n  else {self.body(rest)}")
+        if isinstance(s, ast.Try) and not s.orelse and not s.finalbody and len(s.handlers) == 1:
+            h = s.handlers[0]
+            if not (isinstance(h.type, ast.Name) and h.type.id in RAISES and len(h.body) == 1 and isinstance(h.body[0], ast.Raise)
+                    and isinstance(h.body[0].exc, ast.Call) and isinstance(h.body[0].exc.func, ast.Name) and h.body[0].exc.func.id == h.type.id
+                    and all(isinstance(a, ast.Constant) for a in h.body[0].exc.args)):
+                raise FunError("only  except E as e: raise E(<constants>) from e  is translated")
+            return self.body(list(s.body) + list(rest))
+        return super().body(stmts) if not rest or not isinstance(s, (ast.Assign,)) else self.expr(
+            s.value, lambda v: f"let {s.targets[0].id} := {v} in\n  {self.body(rest)}") if (len(s.targets) == 1 and isinstance(s.targets[0], ast.Name)) else super().body(stmts)
+
+
+def translate_full(path, fname, coq_name, const_classes, wrappers):
+    mod = ast.parse((core.REPO / path).read_text())
+    fns = [n for n in mod.body if isinstance(n, ast.FunctionDef) and n.name == fname]
+    if len(fns) != 1:
+        raise FunError(f"function {fname} not found exactly once in {path}")
+    consts = {}
+    for cn in const_classes:
+        classes = [n for n in mod.body if isinstance(n, ast.ClassDef) and n.name == cn]
+        if len(classes) != 1:
+            raise FunError(f"class {cn} not found exactly once")
+        for n in classes[0].body:
+            if (isinstance(n, ast.Assign) and len(n.targets) == 1 and isinstance(n.targets[0], ast.Name) and isinstance(n.value, ast.Constant)
+                    and isinstance(n.value.value, int) and not isinstance(n.value.value, bool)):
+                consts[(cn, n.targets[0].id)] = n.value.value
+    fn = fns[0]
+    a = fn.args
+    if fn.decorator_list or a.vararg or a.kwarg or a.posonlyargs:
+        raise FunError("decorators, *args and **kwargs are not translated")
+    params = [x.arg for x in a.args] + [x.arg for x in a.kwonlyargs]      # defaults are not modelled: every argument is given
+    text = TrF(consts, wrappers).body(fn.body)
+    args = " ".join(f"({p_} : pv)" for p_ in params)
+    return f"Definition {coq_name} {args} : res pv :=\n  {text}.\n"
+
+
 def translate(path, fname, coq_name):
     mod = ast.parse((core.REPO / path).read_text())
     fns = [n for n in ast.walk(mod) if isinstance(n, ast.FunctionDef) and n.name == fname]        # functions and (static) methods
@@ -359,6 +431,7 @@ def check(tag, items, ok_file, imports=""):
         txt = HEADER + imports + "\n".join((translate_assigned_expr(*it[1:]) if it[0] == "expr" else translate_method(*it[1:]) if it[0] == "method"
                                   else translate_property(*it[1:]) if it[0] == "property"
                                   else translate_obj_method(*it[1:]) if it[0] == "objmethod"
+                                  else translate_full(*it[1:]) if it[0] == "full"
                                   else translate(*it)) for it in items)
     except FunError as e:
         return False, f"translation failed (source outside the translated fragment): {e}"
